@@ -84,8 +84,8 @@ def rawBufRun (last : LastFilter) (input : ByteArray) (outCap : Nat) : Ret × Na
 def fmt (r : Ret × Nat × ByteArray) : String :=
   s!"{r.1.toNat} {r.2.1} {r.2.2.size} {bytesHex r.2.2}"
 
-/-! index-level dictionary ops:  p<hex byte>  r<distance>,<len>  g<distance>  w (wrap if needed)  l<outavail> (set limit)
-    x (lz_decoder_reset)  W<hex> (dict_write, left = len)   → prints pos,full,hasWrapped + results of g / r / p-safe -/
+/-! index-level dictionary ops:  p<hex byte>  r<distance>,<len>  g<distance>  l<outavail> (decode_buffer: wrap if needed, set limit)
+    x (dictionary reset through decode_buffer)  W<hex> (dict_write, left = len)   → results of p / g / r / W, then pos,full,hasWrapped -/
 def dictOps (d : Dict) (ops : List String) (acc : String) : String :=
   match ops with
   | [] => acc ++ s!" {d.p.pos},{d.p.full},{if d.p.hasWrapped then 1 else 0}"
@@ -107,12 +107,11 @@ def dictOps (d : Dict) (ops : List String) (acc : String) : String :=
         | some dist, some len => let (more, left, d') := d.repeat dist len; dictOps d' rest (acc ++ s!" {if more then 1 else 0}:{left}")
         | _, _ => "bad-op"
       | _ => "bad-op"
-    | 'w' => dictOps d.wrap rest acc
     | 'l' =>
       match arg.toNat? with
-      | some n => dictOps { d with p := d.p.setLimit n } rest acc
+      | some n => let d := d.wrap; dictOps { d with p := d.p.setLimit (min n 65536) } rest acc
       | none => "bad-op"
-    | 'x' => dictOps d.reset rest acc
+    | 'x' => let d := d.wrap; dictOps ({ d with p := d.p.setLimit 0 }).reset rest acc
     | 'W' =>
       match hexBytes arg with
       | some b => let (n, d') := d.write b.toList b.size; dictOps d' rest (acc ++ s!" {n}")
